@@ -265,6 +265,15 @@ func SchemaFixedCases() []Case {
 		d.Comp("schemas", "Base", Obj(nil, M{"id": Prim("integer", "int64")}))
 		d.Comp("schemas", "Root", M{"required": L{"name"}, "allOf": L{Ref("schemas", "Base"), Obj(nil, M{"name": Prim("string", ""), "n": Prim("integer", "int32")})}})
 	})
+	mk("schema-fixed-open-object-custom-types-ignored", func(d *Doc) {
+		// free-form additional properties, generated with `customTypes.ignore`: the
+		// option is about x-goag-go-type annotations, the spec has none
+		open := Obj([]string{"id"}, M{"id": Prim("integer", "int64"), "note": Prim("string", "")})
+		open["additionalProperties"] = true
+		d.Comp("schemas", "Open", open)
+		d.Comp("schemas", "Root", Obj([]string{"open"}, M{"open": Ref("schemas", "Open"), "any": M{}, "tags": Arr(Prim("string", ""))}))
+	})
+	out[len(out)-1].CfgRaw = []byte("customTypes:\n  ignore: true\n")
 	mk("schema-fixed-inline-map-value-object-nullable-property", func(d *Doc) {
 		// the value schema of additionalProperties written in place, with a
 		// required, an optional and an optional nullable property
